@@ -8,6 +8,7 @@ import random
 import sys
 import time
 import traceback
+import zlib
 
 import z3
 
@@ -213,8 +214,20 @@ class Ctx:
                 kz.append((kf, core.zb(r)))
         finally:
             E.no_fork -= 1
-        m = E.sat(z3.And([neg] + [z3.Not(k) for _, k in kz]))
+        q = z3.And([neg] + [z3.Not(k) for _, k in kz])
+        m = E.sat(q)
         self.checks_discharged += 1
+        SMT_SAMPLE["n"] += 1
+        if SMT_SAMPLE["left"] > 0 and (zlib.crc32(("%s|%d|%d" % (label, SMT_SAMPLE["n"], SMT_SAMPLE["salt"])).encode()) % SMT_SAMPLE["rate"]) == 0:
+            # second-solver sample: the same postcondition query, exported as SMT-LIB 2
+            try:
+                s2 = z3.Solver()
+                s2.add(E.solver.assertions())
+                s2.add(q)
+                SMT_SAMPLE["out"].append(("sat" if m is not None else "unsat", label, s2.to_smt2()))
+                SMT_SAMPLE["left"] -= 1
+            except Exception:
+                pass
         if m is not None:
             try:
                 info = ascii(concretize(info, m))[:300]
@@ -281,6 +294,7 @@ class Runner:
         fam = self.families[fi]
         sx_pkg = self.pkgs["sx-" + backend]
         real_pkg = self.pkgs["real-" + backend]
+        SMT_SAMPLE.update(left=3 if self.tier == "thorough" else 1, rate=25 if self.tier == "thorough" else 12, salt=self.seed, out=[])
         res = dict(job=job, paths=0, queries=0, solver_s=0.0, cand=[], known=[], conc=0, conc_bad=[],
                    samples=[], reached=0, discharged=0, assume={}, error=None, left=[], exc_paths={})
         E.reset_stats()
@@ -353,6 +367,7 @@ class Runner:
                             "\n" + traceback.format_exc()[-2500:])
         if E.n_unexpected_aborts and not res["error"]:
             res["error"] = "HARNESS-ERROR %d path(s) aborted unexpectedly (infeasible replay or dropped path)" % E.n_unexpected_aborts
+        res["smt"] = [x for x in SMT_SAMPLE["out"] if len(x[2]) < 400000]
         res["paths"] = E.n_paths
         res["queries"] = E.n_queries
         res["solver_s"] = E.t_solver
@@ -366,6 +381,7 @@ class Runner:
         t0 = time.time()
         stats = {j: dict(paths=0, queries=0, solver_s=0.0, conc=0, reached=0, discharged=0, slices=0) for j in self.jobs}
         cands, known_hits, conc_bad, samples, errors = [], [], [], [], []
+        smt = []
         assume = {}
         lines, funcs = set(), set()
         start_coverage()
@@ -406,6 +422,8 @@ class Runner:
                     for k in ("paths", "queries", "solver_s", "conc", "reached", "discharged"):
                         s[k] += r[k]
                     s["slices"] += 1
+                    if len(smt) < (240 if self.tier == "thorough" else 16):
+                        smt += r.get("smt", [])
                     cands += [(j,) + c for c in r["cand"]]
                     known_hits += [(j,) + c for c in r["known"]]
                     conc_bad += [(j, c) for c in r["conc_bad"]]
@@ -441,12 +459,13 @@ class Runner:
                     except Exception:
                         pass
         return dict(stats=stats, cands=cands, known_hits=known_hits, conc_bad=conc_bad, samples=samples,
-                    errors=errors, assume=assume, timed_out=timed_out, capped=capped, lines=lines, funcs=funcs,
+                    errors=errors, assume=assume, smt=smt, timed_out=timed_out, capped=capped, lines=lines, funcs=funcs,
                     wall=time.time() - t0)
 
 
 _RUNNER = None
 _LAST_JOB = None
+SMT_SAMPLE = {"left": 0, "rate": 50, "salt": 0, "out": [], "n": 0}
 
 
 def _run_slice(job, prefixes, max_paths):
